@@ -36,6 +36,17 @@ MUTANTS = [
     {"id": "c14_statement_not_reset", "prop": "C14", "needs": "a run() that raised or was interrupted mid-script, then another run()",
      "edits": [(P, "        self.statement = None\n        self.block_comments = []\n        self.comments = []\n        data = self.pre",
                 "        self.block_comments = []\n        self.comments = []\n        data = self.pre")]},
+    {"id": "c14_env_var_read_at_run", "prop": "C14", "needs": "an environment variable the library reads while running (found by sensing reads of os.environ in the other-environment reference, re-evaluated flipped)",
+     "edits": [(P, RUN_HEAD, RUN_HEAD + "        if os.environ.get(\"SDP_NO_COMMENTS\"):\n            self.tables = [t for t in self.tables if \"comments\" not in t]\n")]},
+    {"id": "c14_env_var_read_at_import", "prop": "C14", "needs": "an environment variable read at import time (the other-environment reference restarts with it flipped)",
+     "edits": [(P, "class Parser:\n", "STRICT = bool(os.environ.get(\"SDP_STRICT\"))\n\n\nclass Parser:\n"),
+               (P, RUN_HEAD, "        if STRICT:\n            self.silent = False\n" + RUN_HEAD)]},
+    {"id": "c14_ttl_cache_refresh_forgets_flags", "prop": "C14", "needs": "two run() calls for the same text more than 300 simulated seconds apart (clock jump between operations)",
+     "edits": [(P, "class Parser:\n", "import time\n\n_PARSED = {}\n_TTL = 300.0\n\n\nclass Parser:\n"),
+               (P, RUN_HEAD, "        key = (self.data, self.normalize_names, self.silent)\n        hit = _PARSED.get(key)\n        if hit is not None and time.monotonic() - hit[0] > _TTL:\n            _PARSED.pop(key)\n            self.normalize_names = False\n        _PARSED[key] = (time.monotonic(), None)\n" + RUN_HEAD)]},
+    {"id": "c14_wall_clock_date_branch", "prop": "C14", "needs": "a process living at another date (simulated clock behind datetime.now())",
+     "edits": [(P, "class Parser:\n", "from datetime import datetime\n\n\nclass Parser:\n"),
+               (P, RUN_HEAD, "        if datetime.now().year > 2030:\n            group_by_type = False\n" + RUN_HEAD)]},
     {"id": "c14_memo_last_result", "prop": "C14", "needs": "second run() with different arguments",
      "edits": [(P, RUN_HEAD, "        if getattr(self, '_memo', None) is not None:\n            return self._memo\n" + RUN_HEAD),
                (P, RUN_TAIL, "        if json_dump:\n            self.tables = json.dumps(self.tables)\n        self._memo = self.tables\n        return self.tables\n")]},
